@@ -78,6 +78,16 @@ pub struct Cell { pub rule: String, pub handle: String, pub payload: String, pub
 
 pub struct Row { rule: &'static str, handle: &'static str, payload: &'static str, opaq: bool, src_send: bool, src_sync: bool, tgt_send: bool, tgt_sync: bool, target_actual: Option<&'static str>, target_stated: &'static str }
 
+/// a C-compatible wrapper type against the std handle it is built from (no conversion involved)
+macro_rules! wrow {
+    ($rule:expr, $handle:expr, $payload:expr, $std:ty, $wrapper:ty) => {
+        Row { rule: $rule, handle: $handle, payload: $payload,
+              opaq: false, src_send: <WS<$std>>::SEND, src_sync: <WY<$std>>::SYNC,
+              tgt_send: <WS<$wrapper>>::SEND, tgt_sync: <WY<$wrapper>>::SYNC,
+              target_actual: None, target_stated: std::any::type_name::<$wrapper>() }
+    };
+}
+
 macro_rules! row {
     ($rule:expr, $handle:expr, $payload:expr, $hty:ty, $src:ty, $tgt:ty) => {
         // the markers of the *instance handle* the value was built from are what counts
@@ -101,6 +111,15 @@ fn main() {
             if let Some(rc) = &replay { if !(rc.rule == cell.rule && rc.payload == cell.payload && rc.marker == cell.marker) { continue; } }
             else if ctx.is_replay() { continue; }
             ctx.eval_nofreeze("cells", &cell, |_| {
+                if r.rule.starts_with("wrapper:") {
+                    // a wrapper built from a std handle must not be more thread-safe than that handle
+                    if tgt && !src {
+                        let key = format!("C09:{}:{}", r.handle, marker);
+                        if !ctx.known(&key) {
+                            return Err(Fail::new(key, format!("{} over a payload that is {}: the std handle it is built from is not {marker}, but {} is", r.rule, r.payload, r.target_stated)));
+                        }
+                    }
+                }
                 if r.opaq {
                     // the stated target type must be what the conversion really produces
                     if r.target_actual != Some(r.target_stated) {
@@ -115,11 +134,11 @@ fn main() {
                 }
                 // non-trivial cells: the payload (hence possibly the handle) lacks the marker
                 let lacks = r.payload.contains(if marker == "Send" { "nosend" } else { "nosync" });
-                Ok(Info::new(lacks).class(format!("rule:{}", r.rule)).class_if(r.opaq, "convertible").class_if(!r.opaq, "conversion-rejected-by-bounds").class_if(r.opaq && !src && !tgt, "marker-correctly-absent"))
+                Ok(Info::new(lacks).class(format!("rule:{}", r.rule)).class_if(r.opaq, "convertible").class_if(!r.opaq && !r.rule.starts_with("wrapper:"), "conversion-rejected-by-bounds").class_if(r.rule.starts_with("wrapper:"), "wrapper-vs-std-handle").class_if(r.opaq && !src && !tgt, "marker-correctly-absent"))
             });
         }
     }
-    let code = ctx.finish("every opaque-conversion rule (shared/mutable reference, CBox, CSliceBox, CArc, CArcSome, Fwd over each, PhantomData, CGlueObjContainer, generated single-trait object, generated group, its cast (With) variants) x instance handle kind x context (none / CArc) x payload in {Send,!Send}x{Sync,!Sync} x marker in {Send,Sync}: booleans `X: Marker` are computed on concrete types with the inherent-const-shadows-trait-const trick; oracle: convertible and marker(opaque form) implies marker(handle). Non-trivial = the payload lacks the marker", &["the opaque target type of each rule is stated in the matrix and compared with type_name of the real associated type"], true);
+    let code = ctx.finish("every opaque-conversion rule (shared/mutable reference, CBox, CSliceBox, CArc, CArcSome, Fwd over each, PhantomData, CGlueObjContainer, generated single-trait object, generated group, its cast (With) variants) x instance handle kind x context (none / CArc) x payload in {Send,!Send}x{Sync,!Sync} x marker in {Send,Sync}: booleans `X: Marker` are computed on concrete types with the inherent-const-shadows-trait-const trick; oracle: convertible and marker(opaque form) implies marker(handle). Plus the smart pointers themselves (CBox, CSliceBox, CArc, CArcSome) against the std handle each is built from (Box, Box<[T]>, Option<Arc>, Arc): marker(smart pointer) implies marker(std handle). Non-trivial = the payload lacks the marker", &["the opaque target type of each rule is stated in the matrix and compared with type_name of the real associated type"], true);
     std::process::exit(code);
 }
 """
@@ -153,9 +172,20 @@ def make():
                 rows.append((f"object<{h},{cn}>", h, pn, hty, f"DmBase<'static, {src}, {ctx}>", f"DmBase<'static, {tgt}, {ctx}>"))
                 rows.append((f"group<{h},{cn}>", h, pn, hty, f"Dg<'static, {src}, {ctx}>", f"Dg<'static, {tgt}, {ctx}>"))
                 rows.append((f"group-container<{h},{cn}>", h, pn, hty, f"DgContainer<{src}, {ctx}>", f"DgContainer<{tgt}, {ctx}>"))
+    wrows = []
+    for (pn, P, _, _) in PAYLOADS:
+        for (name, std, wr) in [
+            ("w-cbox", f"Box<{P}>", f"CBox<'static, {P}>"),
+            ("w-cslicebox", f"Box<[{P}]>", f"CSliceBox<'static, {P}>"),
+            ("w-carc", f"Option<std::sync::Arc<{P}>>", f"CArc<{P}>"),
+            ("w-carcsome", f"std::sync::Arc<{P}>", f"CArcSome<{P}>"),
+        ]:
+            wrows.append((f"wrapper:{name[2:]}", name, pn, std, wr))
     body = [HEADER, "fn rows() -> Vec<Row> {", "    vec!["]
     for (rule, h, pn, hty, src, tgt) in rows:
         body.append(f"        row!(\"{rule}\", \"{h}\", \"{pn}\", {hty}, {src}, {tgt}),")
+    for (rule, h, pn, std, wr) in wrows:
+        body.append(f"        wrow!(\"{rule}\", \"{h}\", \"{pn}\", {std}, {wr}),")
     body.append("    ]")
     body.append("}")
     body.append(MAIN)
